@@ -1138,4 +1138,11 @@ def refs_valid(classes, root):
 
 
 Prop.THEOREMS = [
+    "Dot.C29_escape_chain",
+    "Dot.C29_escape_safe",
+    "Dot.C29_repr_safe",
+    "Dot.C29_record_label",
+    "Dot.C29_render_valid",
+    "Dot.C29_model_export_valid",
+    "Dot.C29_unescaped_false",
 ]
